@@ -94,8 +94,6 @@ func c14recRun(r *vfRand, c *c14recCase, tr *zzc14.Trace) (*zzc14.Plan, string) 
 		}
 		tr.Ctor(err == nil)
 		if err != nil {
-			plan.Close = func() error { return nil }
-			plan.CloseAt = 0
 			plan.Run(tr)
 			return plan, "ctor error: " + err.Error()
 		}
